@@ -1256,7 +1256,13 @@ class MountPointStore(RoutingStore):
 
     def keys(self):
         prefixes = []
+        # the parents of a mount point are directories of the composite: they are listed (once) even if no store holds them
+        parents = set()
+        for prefix, _ in self.routing_table:
+            parts = prefix.split("/")
+            parents.update("/".join(parts[:i]) for i in range(1, len(parts)))
         for prefix, store in reversed(self.routing_table):
+            parents.discard(prefix)
             yield prefix
             if not prefix.endswith("/"):
                 prefix += "/"
@@ -1264,13 +1270,17 @@ class MountPointStore(RoutingStore):
                 if any((key + "/").startswith(p) for p in prefixes):
                     continue
                 if key.startswith(prefix):
+                    parents.discard(key)
                     yield key
             prefixes.append(prefix)
         if self.default_store is not None:
             for key in self.default_store.keys():
                 if any((key + "/").startswith(p) for p in prefixes):
                     continue
+                parents.discard(key)
                 yield key
+        for key in sorted(parents):
+            yield key
 
     def listdir(self, key):
         try:
